@@ -635,3 +635,92 @@ Theorem paris_terminates_for_source (n : nat) (G : entries) (wout win : list Q) 
              /\ p_comps st <> [].
 Proof. exact (ParisC17.paris_terminates_for_source n G wout win). Qed.
 Print Assumptions paris_terminates_for_source.
+
+
+(** ------------------------------------------------------------------------------------------------
+    11. Leiden.fit (leiden.py): the outer [while not stop] loop terminates (Proofs/LeidenProofs.v).
+    Sections 9.3 / 9.5 are about the refinement kernel; here the kernel's answer is an oracle [refine] and the
+    statement holds for EVERY oracle meeting [refine_contract] (one refined label per node, refined clusters
+    are connected subsets of coarse clusters). The node-count argument of Louvain.fit (the aggregate has
+    strictly fewer nodes) fails for Leiden — the graph is aggregated by the REFINED partition — so the
+    condition is tol_aggregation > 0: an aggregation that does not stop the loop has increase >
+    tol_aggregation, the increase is the gain of the objective of the coarse partition on the original
+    nodes, and the objective is bounded. Fuels computed from the arguments of fit (exact arithmetic):
+      [leiden_kfuel] = ceil((B - Q0) / tol_optimization) + 1 passes per call of optimize_core,
+      [leiden_fuel]  = ceil((B - Q0) / tol_aggregation) + 1 aggregations,
+    B = sum_ij |A_ij - resolution * out_i * in_j| on the pre-processed input, Q0 = objective(singletons).
+    The only error fit can return is ValueError (empty / invalid input). *)
+From SKN Require Import Proofs.LeidenProofs.
+Set Warnings "-notation-overridden". (* keep: a line with a parenthesis after the imports *)
+
+Theorem leiden_fit_never_out_of_fuel (refine : nat -> Modularity.wgraph -> list nat -> list nat)
+        (fuel kfuel : nat) (kind : Louvain.modkind) (res tol_opt tol_agg : Q) (n_agg : Z)
+        (sort_clusters : bool) (m : Modularity.wmat) (fb : bool) (index : option (list nat)) :
+  LouvainProofs.refine_contract refine ->
+  (0 < tol_opt)%Q -> (0 < tol_agg)%Q ->
+  (leiden_kfuel kind res tol_opt m fb index <= kfuel)%nat ->
+  (leiden_fuel kind res tol_agg m fb index <= fuel)%nat ->
+  Louvain.leiden_fit fuel kfuel kind res tol_opt tol_agg n_agg sort_clusters refine m fb index
+  <> Modularity.MErr Modularity.MOutOfFuel.
+Proof.
+  exact (leiden_fit_never_out_of_fuel_pf refine fuel kfuel kind res tol_opt tol_agg n_agg sort_clusters m fb index).
+Qed.
+Print Assumptions leiden_fit_never_out_of_fuel.
+
+(** tol_aggregation <= 0 is covered only when n_aggregations >= 1 (the test [count == n_aggregations]) ... *)
+Theorem leiden_fit_n_aggregations_never_out_of_fuel_loop
+        (refine : nat -> Modularity.wgraph -> list nat -> list nat)
+        (fuel kfuel : nat) (kind : Louvain.modkind) (res tol_opt tol_agg : Q) (n_agg : Z)
+        (m : Modularity.wmat) (fb : bool) (index : option (list nat)) (p : Louvain.prep) :
+  LouvainProofs.refine_contract refine ->
+  Louvain.pre_processing kind m fb index = Modularity.MOk p ->
+  (0 < tol_opt)%Q -> (1 <= n_agg)%Z ->
+  (leiden_kfuel kind res tol_opt m fb index <= kfuel)%nat ->
+  (Z.to_nat n_agg <= fuel)%nat ->
+  exists r, Louvain.leiden_loop fuel kfuel res tol_opt tol_agg n_agg refine
+              (Louvain.p_adj p) (Louvain.p_out p) (Louvain.p_in p)
+              (seq 0 (length (Louvain.p_adj p))) (seq 0 (length (Louvain.p_adj p))) 0 [] Louvain.marg0
+            = Modularity.MOk r.
+Proof. exact (leiden_loop_fit_terminates_n_agg refine fuel kfuel kind res tol_opt tol_agg n_agg m fb index p). Qed.
+Print Assumptions leiden_fit_n_aggregations_never_out_of_fuel_loop.
+
+(** ... or, in EXACT arithmetic only, by the finiteness of the set of objective values (n^n + 1
+    aggregations, n the number of nodes). PARTIAL: exact-rational model; in float32 an accepted gain can be
+    rounding noise (known finding D32). *)
+Theorem leiden_fit_tol_aggregation_0_terminates_partial
+        (refine : nat -> Modularity.wgraph -> list nat -> list nat)
+        (fuel kfuel : nat) (kind : Louvain.modkind) (res tol_opt tol_agg : Q) (n_agg : Z)
+        (m : Modularity.wmat) (fb : bool) (index : option (list nat)) (p : Louvain.prep) :
+  LouvainProofs.refine_contract refine ->
+  Louvain.pre_processing kind m fb index = Modularity.MOk p ->
+  (0 < tol_opt)%Q -> (0 <= tol_agg)%Q ->
+  (leiden_kfuel kind res tol_opt m fb index <= kfuel)%nat ->
+  (S (length (Louvain.p_adj p) ^ length (Louvain.p_adj p)) <= fuel)%nat ->
+  exists r, Louvain.leiden_loop fuel kfuel res tol_opt tol_agg n_agg refine
+              (Louvain.p_adj p) (Louvain.p_out p) (Louvain.p_in p)
+              (seq 0 (length (Louvain.p_adj p))) (seq 0 (length (Louvain.p_adj p))) 0 [] Louvain.marg0
+            = Modularity.MOk r.
+Proof. exact (leiden_loop_fit_terminates_tol0_partial refine fuel kfuel kind res tol_opt tol_agg n_agg m fb index p). Qed.
+Print Assumptions leiden_fit_tol_aggregation_0_terminates_partial.
+
+(** Non-vacuity: the contract is met by the oracle that refines nothing; on the 5-node house graph with
+    tol_optimization = tol_aggregation = 1/100 both computed fuels are 120 and fit returns with them. *)
+Example leiden_fit_fuel_example :
+  let house := {| Modularity.w_ncol := 5;
+                  Modularity.w_rows := [[(1%nat, 1%Q); (4%nat, 1%Q)]; [(0%nat, 1%Q); (2%nat, 1%Q); (4%nat, 1%Q)];
+                                        [(1%nat, 1%Q); (3%nat, 1%Q)]; [(2%nat, 1%Q); (4%nat, 1%Q)];
+                                        [(0%nat, 1%Q); (1%nat, 1%Q); (3%nat, 1%Q)]] |} in
+  LouvainProofs.refine_contract (fun _ g _ => seq 0 (length g)) /\
+  leiden_kfuel Louvain.Dugue 1%Q (1 # 100)%Q house false None = 120%nat /\
+  leiden_fuel Louvain.Dugue 1%Q (1 # 100)%Q house false None = 120%nat /\
+  exists log mg, Louvain.leiden_fit 120 120 Louvain.Dugue 1%Q (1 # 100)%Q (1 # 100)%Q (-1)%Z true
+                   (fun _ g _ => seq 0 (length g)) house false None
+                 = Modularity.MOk ([0; 0; 1; 1; 0]%nat, log, mg).
+Proof.
+  intros house. split.
+  - intros count g labels Hwf Hlen. split; [apply seq_length|]. split.
+    + intros x y Hx Hy E. rewrite !LouvainProofs.lab_seq in E by assumption. subst y. reflexivity.
+    + apply LouvainProofs.cc_inv_singletons.
+  - split; [vm_compute; reflexivity|]. split; [vm_compute; reflexivity|].
+    eexists. eexists. vm_compute. reflexivity.
+Qed.
